@@ -118,9 +118,10 @@ Iter ==
          ptrIf2 == ptrIf \cup UNION {{<<r.t.k, inbox[j]["if"]>> : r \in ptrs(j)} : j \in resp}
          \* --- egress: only on enabled interfaces / families.  The interface(s) a packet was composed for: the one it
          \* left on, if that may be enabled, or (IPv4, within a window) the interface that held the sending address before it moved
+         \* (to whatever interface, up or down: the simulated kernel routes by the address alone)
          mcast == {i \in OkPk : Pk(i).mc}
          intended(i) == (IF <<Pk(i)["if"], Pk(i).v4>> \in mayIF THEN {Pk(i)["if"]} ELSE {})
-                        \cup (IF Pk(i).v4 THEN {a.idx : a \in {x \in may : x.v4 /\ \E b \in Flat(sys) : b.ip = x.ip /\ b.idx = Pk(i)["if"]}} ELSE {})
+                        \cup (IF Pk(i).v4 THEN {a.idx : a \in {x \in may : x.v4 /\ \E y \in RangeI(sys) : y.idx = Pk(i)["if"] /\ \E b \in RangeI(y.addrs) : b.ip = x.ip}} ELSE {})
          vEgress == UNION {V("C18.order", intended(i) # {},
                              <<IF Pk(i).m.qr THEN "response sent on an interface or IP family that the selections in force disable (or that is gone)"
                                ELSE "query sent on an interface or IP family that the selections in force disable (or that is gone)",
@@ -241,12 +242,17 @@ IsSelect == Ev.e = "call" /\ Ev.fn \in {"enable_interface", "disable_interface"}
 Select == /\ IsSelect
           /\ LET s2 == Append(sels, [en |-> Ev.fn = "enable_interface", kind |-> ResolveKind(Ev.args.kind, sys)])
                  new == Enabled(sys, s2)
+                 \* a disabled interface / IP family: the addresses learned there "are no longer reported" - that is all the statement
+                 \* promises; the daemon forgets them without a word, so nothing is left of them to be resolved again should the
+                 \* interface disappear later
+                 offNow == {p \in IfFam(Flat(sys)) : p \notin IfFam(new)}
              IN /\ sels' = s2
+                /\ lastRes' = [k \in Dom(lastRes) |-> [lastRes[k] EXCEPT !.addrs = {p \in @ : <<p[2], p[3]>> \notin offNow}]]
                 /\ snaps' = LiveSnaps(T) \cup {[en |-> En, flat |-> Flat(sys), until |-> T + 1000, cmd |-> FALSE]}
                 /\ owed' = {o \in owed : o.kind = "follow" => \E a \in new : a.ip = o.ip /\ a.idx = o.idx}
                            \cup (IF down THEN {} ELSE FollowOwed(En, new, MayAt(T), T + 1000))
           /\ cmds' = Append(cmds, Ev)
-          /\ UNCHANGED <<scen, hosts, myhost, sys, ipint, ipsince, reg, inbox, ptrOk, ptrIf, lastRes, open, down, viol, hits>>
+          /\ UNCHANGED <<scen, hosts, myhost, sys, ipint, ipsince, reg, inbox, ptrOk, ptrIf, open, down, viol, hits>>
 IsIpInt == Ev.e = "call" /\ Ev.fn = "set_ip_check_interval" /\ Ev.res = "ok"
 IpInt == /\ IsIpInt
          /\ ipint' = IF Ev.args.secs > 2000000 THEN 2000000000 ELSE 1000 * Ev.args.secs
